@@ -1,4 +1,2322 @@
 package main
 
-// genIoCsv: placeholder until the translation of this part of the library is written (an empty generated file).
-func genIoCsv() string { return "" }
+// Translation of internal/io/csv.go (ReadCSV above the scanner) into Gallina (coq/Gen/GenIoCsv.v, tie T1 for
+// C12 / C13 / C17).
+//
+// The functions listed in gioSpecs are translated statement by statement into definitions gio_<name>, the structs
+// bytePointer and CSVConfig into records.  coq/Proofs/GenIoCsvProofs.v proves every generated definition equal to
+// the hand-written model of coq/Model/CsvRead.v (the one the csv engine executes), so that an edit of csv.go changes
+// the generated text and breaks a named theorem T1_iocsv_<name> of coq/Properties/T1IoCsv.v.
+//
+// THE SCHEME (anything that does not fit is reported through problem(...); the block then keeps the text of the
+// golden copy, marked FALLBACK, so that the development still builds — the exit status says the tie is broken).
+//
+//	scanner     THE ABSTRACTION BOUNDARY below.  fastcsv.Reader is a value of an arbitrary type Rd, the io.Reader an
+//	            arbitrary type IO, with the vocabulary (section variables)
+//	              fastcsv.NewReader(x, d) -> rd_new x d    : outcome Rd
+//	              r.Next()                -> rd_next r     : outcome (bool * Rd)
+//	              r.Read()                -> rd_read r     : outcome (list bytes * gio_error * Rd)
+//	              r.Fields()              -> rd_fields r   : list bytes   (the VALUES of the fields: they are copied
+//	                                                          by append(.., col...) / string(..) before the next call)
+//	              r.Err()                 -> rd_err r      : gio_error
+//	            GenIoCsvProofs.v instantiates them with the translated scanner gv_* of Gen/GenFastCsv.v.
+//	parsers     strings.ParseInt / ParseFloat / ParseBool are parse_int : bytes -> option Z, parse_float : bytes ->
+//	            option N (bit pattern), parse_bool : bytes -> option bool, arbitrary (the model's oracle tables):
+//	            x, err := strings.ParseInt(b) -> (x, err) := gio_ParseInt b  (None = a non-nil error, x = 0).
+//	enum        ecolumn's factory is an arbitrary type Fac with fac_new : list bytes -> Z -> Fac * gio_error,
+//	            fac_append_nil : Fac -> Fac, fac_append_bs : Fac -> bytes -> gio_error * Fac, fac_to_column : Fac -> ECol.
+//	errors      gio_error = gio_nil | gio_some: qerrors.New(..) and qerrors.Propagate(..) answer gio_some (they build
+//	            a struct value, never nil; their message arguments must be panic-free and are dropped).
+//	interface{} the value ReadCSV hands out per column is the tagged union gio_data: gio_d_nil (nil), gio_d_ncolumn
+//	            (ncolumn.Column{}), gio_d_ints / gio_d_floats / gio_d_bools ([]int / []float64 / []bool),
+//	            gio_d_blob p d (strings.StringBlob{Pointers: p, Data: d}), gio_d_enum (factory.ToColumn()).
+//	            strings.NewPointer(o, l, n) is the triple (o, l, n) (its bit packing is gf_strings_NewPointer of
+//	            GenFuncs.v); math.NaN() is gio_NaN; fmt.Sprint(int) is itoa of Model/CsvWrite.v.
+//	strings     string and the []byte VALUES delivered by the scanner / cut out of a blob are bytes = list N;
+//	            == is bytes_eqb, + is ++, a literal is its bytes, string(b) is b.  types.DataType is string; the
+//	            constants of /repo/types are generated as gio_c_types_<Name>.
+//	slices      []byte and []bytePointer (the per column buffers, whose capacity the code asks for) are
+//	            gio_cs T = (list T * Z): value and capacity.  make([]T, 0, c) = ([], c) (Panic when c < 0);
+//	            append within the capacity keeps it, beyond it the new capacity is grow (old capacity) (needed
+//	            length), grow ARBITRARY; cap(x) = the second component; x[lo:hi] is the value (Panic outside
+//	            0 <= lo <= hi <= len, where Go allows hi up to cap).  All other slices ([]string, [][]byte,
+//	            [][]bytePointer, []int, ..) are plain lists: make([]T, n) = n zero values, make([]T, 0, c) = []
+//	            (Panic when negative), x[i] / x[i] = v panic outside the length.  Aliasing is abstracted: a slice
+//	            (map) argument that the callee writes through (x[i] = v, delete, a call that does) is threaded:
+//	            its final value is answered after the results and stored back at the call site; headers :=
+//	            conf.Headers copies the value (ReadCSV DOES overwrite elements of the caller's Headers slice:
+//	            not visible in what it returns).
+//	maps        map[string]V is an association list with unique keys in insertion order: m[k] -> gio_map_get m k
+//	            zero, v, ok := m[k] -> also gio_map_has m k, m[k] = v -> gio_map_set (replace or add at the end),
+//	            delete -> gio_map_del, len -> length, make(map.., hint) -> [].  strings.StringSet is a map to unit.
+//	integers    int -> Z exact; uint32(x) -> gio_u32 x = x mod 2^32, a - b on uint32 wraps the same way, int(u) is u.
+//	floats      the one float64 computation (the capacity estimate of resizeColBytes) runs in an ARBITRARY
+//	            algebra FA: float64(i) -> fa_of_int, a literal -> fa_const num den, * / -> fa_mul / fa_div,
+//	            int(f) -> fa_to_int.
+//	records     struct -> Record gio_<T> with projections gio_<T>_<field> and setters gio_<T>_set_<field>.
+//	results     a function answers outcome (r1 * .. * rn * out1 * ..): the Go results, then the final values of
+//	            the threaded arguments.  Panic = Go panic OR fuel used up.
+//	fuel        a function that contains a for loop (not range) or calls such a function takes (fuel : nat) first:
+//	            O => Panic | S fuel' => body; its for loops and fuelled calls get fuel'.  Range loops are structural.
+//	scopes      x := e in an inner block declares a new variable (a shadowed name gets a numbered Coq name).
+//	if          when no branch leaves the statement: do (assigned outer variables) <- (if c then .. else ..); rest.
+//	            Otherwise the rest of the block is continued inside the branches that fall through.
+//	for         for [cond] { body }: Fixpoint .._loopN over its own counter (O => Panic).  Kinds: A no return
+//	            inside (answers the assigned outer variables), B return inside and never left otherwise, C both
+//	            (inl r = returned, inr vs = left normally).  The condition may be r.Next().
+//	range       for i, x := range X { body }: structural Fixpoint over the list X held when the loop starts,
+//	            with the index as a Z counter.  Inside the body X may only be written at X[i] (so that the
+//	            elements not yet visited are the ones of the snapshot, as in Go where range reads them live).
+//	            Kinds A and C as above; break = normal exit, continue = next element.
+//	rejected    goto, labels, switch, defer, closures, three-clause for, named results, everything else.
+
+import (
+	"flag"
+	"fmt"
+	"go/ast"
+	"go/token"
+	"math/big"
+	"os"
+	"path/filepath"
+	"strconv"
+	"strings"
+)
+
+const gioPkg = "internal/io"
+
+// in dependency order (a callee before its callers)
+var gioSpecs = []string{"isEmptyLine", "addAliasToMissingColumnNames", "renameDuplicateColumns", "columnToData",
+	"resizeColPointers", "resizeColBytes", "ReadCSV"}
+
+var gioStructs = []string{"bytePointer", "CSVConfig"}
+
+// the string constants of /repo/types the code compares with
+var gioTypeConsts = []string{"None", "Int", "Float", "Bool", "String", "Enum"}
+
+// the finer types of [][]byte places
+var gioPlaces = map[string]string{
+	"isEmptyLine.fields": "rows",
+}
+
+const gioPreamble = `(* GENERATED by tools/qf2coq (iocsv.go) from internal/io/csv.go of tobgu/qframe — do not edit.
+   One Record per struct, one definition gio_<function> per translated Go function, one Fixpoint .._loopN per
+   loop; the scheme is described at the top of tools/qf2coq/iocsv.go.
+   Rd / IO : the fastcsv Reader and the io.Reader under it (arbitrary types, vocabulary rd_new / rd_next / rd_read
+   / rd_fields / rd_err); parse_int / parse_float / parse_bool : strconv; Fac / ECol : the enum factory; grow : the
+   capacity append chooses; FA : the float64 algebra of the capacity estimate.  string / []byte values are bytes,
+   int is Z, uint32 is Z mod 2^32, a []byte / []bytePointer buffer is (value, capacity), a map an association list.
+   A function with a for loop (or calling one) takes fuel first: O => Panic.  Results: the Go results, then the
+   final values of the slice / map arguments it writes through. *)
+From QF Require Import Base.Prelude Model.CsvSpec Model.CsvWrite.
+Local Open Scope Z_scope.
+
+Inductive gio_error := gio_nil | gio_some.
+Definition gio_error_eqb (a b : gio_error) : bool :=
+  match a, b with gio_nil, gio_nil | gio_some, gio_some => true | _, _ => false end.
+
+(* plain slices *)
+Definition gio_len {T : Type} (s : list T) : Z := Z.of_nat (length s).
+Definition gio_list_index {T : Type} (s : list T) (i : Z) : outcome T :=
+  if i <? 0 then Panic else idx s (Z.to_nat i).
+Definition gio_list_update {T : Type} (s : list T) (i : Z) (v : T) : outcome (list T) :=
+  if i <? 0 then Panic else do _ <- idx s (Z.to_nat i); Ok (set_nth s (Z.to_nat i) v).
+Definition gio_make_list {T : Type} (n : Z) (z : T) : outcome (list T) :=
+  if n <? 0 then Panic else Ok (repeat z (Z.to_nat n)).
+Definition gio_make_empty {T : Type} (c : Z) : outcome (list T) :=
+  if c <? 0 then Panic else Ok [].
+
+(* buffers: value and capacity *)
+Definition gio_cs (T : Type) : Type := (list T * Z)%type.
+Definition gio_clen {T : Type} (s : gio_cs T) : Z := Z.of_nat (length (fst s)).
+Definition gio_ccap {T : Type} (s : gio_cs T) : Z := snd s.
+Definition gio_cmake0 {T : Type} (c : Z) : outcome (gio_cs T) :=
+  if c <? 0 then Panic else Ok ([], c).
+Definition gio_csub (s : gio_cs N) (lo hi : Z) : outcome bytes :=
+  if (0 <=? lo) && (lo <=? hi) && (hi <=? gio_clen s)
+  then Ok (firstn (Z.to_nat (hi - lo)) (skipn (Z.to_nat lo) (fst s))) else Panic.
+
+(* maps with string keys *)
+Fixpoint gio_map_get {V : Type} (m : list (bytes * V)) (k : bytes) (d : V) : V :=
+  match m with
+  | [] => d
+  | (k', v) :: t => if bytes_eqb k k' then v else gio_map_get t k d
+  end.
+Fixpoint gio_map_has {V : Type} (m : list (bytes * V)) (k : bytes) : bool :=
+  match m with
+  | [] => false
+  | (k', _) :: t => if bytes_eqb k k' then true else gio_map_has t k
+  end.
+Fixpoint gio_map_set {V : Type} (m : list (bytes * V)) (k : bytes) (v : V) : list (bytes * V) :=
+  match m with
+  | [] => [(k, v)]
+  | (k', v') :: t => if bytes_eqb k k' then (k, v) :: t else (k', v') :: gio_map_set t k v
+  end.
+Definition gio_map_del {V : Type} (m : list (bytes * V)) (k : bytes) : list (bytes * V) :=
+  filter (fun kv => negb (bytes_eqb k (fst kv))) m.
+
+Definition gio_u32 (x : Z) : Z := x mod 4294967296.
+Definition gio_NaN : N := nan_bits.
+Definition gio_Sprint (x : Z) : bytes := itoa x.
+Definition gio_sptr : Type := (Z * Z * bool)%type.
+Definition gio_NewPointer (o l : Z) (n : bool) : gio_sptr := (o, l, n).
+
+`
+
+const gioSection = `
+Section GenIoCsv.
+Context {IO Rd Fac ECol FA : Type}.
+Variable rd_new : IO -> N -> outcome Rd.
+Variable rd_next : Rd -> outcome (bool * Rd).
+Variable rd_read : Rd -> outcome (list bytes * gio_error * Rd).
+Variable rd_fields : Rd -> list bytes.
+Variable rd_err : Rd -> gio_error.
+Variable parse_int : bytes -> option Z.
+Variable parse_float : bytes -> option N.
+Variable parse_bool : bytes -> option bool.
+Variable fac_new : list bytes -> Z -> Fac * gio_error.
+Variable fac_append_nil : Fac -> Fac.
+Variable fac_append_bs : Fac -> bytes -> gio_error * Fac.
+Variable fac_to_column : Fac -> ECol.
+Variable grow : Z -> Z -> Z.
+Variable fa_of_int : Z -> FA.
+Variable fa_const : Z -> Z -> FA.
+Variable fa_mul : FA -> FA -> FA.
+Variable fa_div : FA -> FA -> FA.
+Variable fa_to_int : FA -> Z.
+
+Definition gio_ParseInt (b : bytes) : Z * gio_error :=
+  match parse_int b with Some x => (x, gio_nil) | None => (0, gio_some) end.
+Definition gio_ParseFloat (b : bytes) : N * gio_error :=
+  match parse_float b with Some x => (x, gio_nil) | None => (0%N, gio_some) end.
+Definition gio_ParseBool (b : bytes) : bool * gio_error :=
+  match parse_bool b with Some x => (x, gio_nil) | None => (false, gio_some) end.
+
+(* append(s, xs...) on a buffer *)
+Definition gio_cappend {T : Type} (s : gio_cs T) (xs : list T) : gio_cs T :=
+  let n := gio_clen s + Z.of_nat (length xs) in
+  (fst s ++ xs, if n <=? snd s then snd s else grow (snd s) n).
+
+Inductive gio_data :=
+| gio_d_nil
+| gio_d_ncolumn
+| gio_d_ints (l : list Z)
+| gio_d_floats (l : list N)
+| gio_d_bools (l : list bool)
+| gio_d_blob (p : list gio_sptr) (d : gio_cs N)
+| gio_d_enum (c : ECol).
+
+`
+
+// ------------------------------------------------------------------ types
+
+type gioT struct {
+	k     string // int u32 bool byte str err float fa bytes cs list map struct data sptr fac rd io unit const nil bad
+	elem  *gioT
+	sname string
+	val   *big.Rat
+	sval  string // string constants
+}
+
+var (
+	gioInt   = &gioT{k: "int"}
+	gioU32   = &gioT{k: "u32"}
+	gioBool  = &gioT{k: "bool"}
+	gioByte  = &gioT{k: "byte"}
+	gioStr   = &gioT{k: "str"}
+	gioErr   = &gioT{k: "err"}
+	gioFloat = &gioT{k: "float"}
+	gioFA    = &gioT{k: "fa"}
+	gioBytes = &gioT{k: "bytes"}
+	gioData  = &gioT{k: "data"}
+	gioSptr  = &gioT{k: "sptr"}
+	gioFac   = &gioT{k: "fac"}
+	gioRd    = &gioT{k: "rd"}
+	gioIO    = &gioT{k: "io"}
+	gioUnit  = &gioT{k: "unit"}
+	gioNil   = &gioT{k: "nil"}
+	gioBad   = &gioT{k: "bad"}
+)
+
+func gioCs(e *gioT) *gioT   { return &gioT{k: "cs", elem: e} }
+func gioList(e *gioT) *gioT { return &gioT{k: "list", elem: e} }
+func gioMap(e *gioT) *gioT  { return &gioT{k: "map", elem: e} }
+
+func (t *gioT) same(u *gioT) bool {
+	if t.k != u.k || t.sname != u.sname {
+		return false
+	}
+	if t.elem != nil || u.elem != nil {
+		return t.elem != nil && u.elem != nil && t.elem.same(u.elem)
+	}
+	return true
+}
+
+func (t *gioT) name() string {
+	switch t.k {
+	case "struct":
+		return t.sname
+	case "cs", "list", "map":
+		return t.k + " of " + t.elem.name()
+	}
+	return t.k
+}
+
+func (t *gioT) coq() string {
+	switch t.k {
+	case "int", "u32":
+		return "Z"
+	case "bool":
+		return "bool"
+	case "byte", "float":
+		return "N"
+	case "str", "bytes":
+		return "bytes"
+	case "err":
+		return "gio_error"
+	case "fa":
+		return "FA"
+	case "data":
+		return "gio_data"
+	case "sptr":
+		return "gio_sptr"
+	case "fac":
+		return "Fac"
+	case "rd":
+		return "Rd"
+	case "io":
+		return "IO"
+	case "unit":
+		return "unit"
+	case "cs":
+		return "(gio_cs " + t.elem.coq() + ")"
+	case "list":
+		return "(list " + t.elem.coq() + ")"
+	case "map":
+		return "(list (bytes * " + t.elem.coq() + "))"
+	case "struct":
+		return "gio_" + t.sname
+	}
+	return "BAD"
+}
+
+func (t *gioT) zero() (string, bool) {
+	switch t.k {
+	case "int", "u32":
+		return "0", true
+	case "bool":
+		return "false", true
+	case "byte", "float":
+		return "0%N", true
+	case "str", "bytes":
+		return "(@nil N)", true
+	case "err":
+		return "gio_nil", true
+	case "data":
+		return "gio_d_nil", true
+	case "cs":
+		return "(@nil " + t.elem.coq() + ", 0)", true
+	case "list":
+		return "(@nil " + t.elem.coq() + ")", true
+	case "map":
+		return "(@nil (bytes * " + t.elem.coq() + "))", true
+	case "sptr":
+		return "(0, 0, false)", true
+	case "unit":
+		return "tt", true
+	}
+	return "BAD", false
+}
+
+type gioField struct {
+	name string
+	t    *gioT
+}
+
+type gioStruct struct {
+	name   string
+	fields []gioField
+	ok     bool
+}
+
+var gioStructTab map[string]*gioStruct
+
+func gioResolveSrc(src, place string) *gioT {
+	switch src {
+	case "int":
+		return gioInt
+	case "uint32":
+		return gioU32
+	case "bool":
+		return gioBool
+	case "byte":
+		return gioByte
+	case "string", "types.DataType":
+		return gioStr
+	case "error":
+		return gioErr
+	case "float64":
+		return gioFloat
+	case "interface{}":
+		return gioData
+	case "io.Reader":
+		return gioIO
+	case "strings.Pointer":
+		return gioSptr
+	case "[]byte":
+		return gioCs(gioByte)
+	case "[][]byte":
+		if gioPlaces[place] == "rows" {
+			return gioList(gioBytes)
+		}
+		return gioList(gioCs(gioByte))
+	case "struct{}":
+		return gioUnit
+	}
+	if strings.HasPrefix(src, "map[string]") {
+		e := gioResolveSrc(src[len("map[string]"):], "")
+		if e.k == "bad" {
+			return gioBad
+		}
+		if e.k == "cs" { // no buffers inside maps
+			return gioBad
+		}
+		return gioMap(e)
+	}
+	if strings.HasPrefix(src, "[]") {
+		e := gioResolveSrc(src[2:], "")
+		if e.k == "bad" {
+			return gioBad
+		}
+		if e.k == "struct" && e.sname == "bytePointer" {
+			return gioCs(e)
+		}
+		return gioList(e)
+	}
+	for _, s := range gioStructs {
+		if s == src {
+			return &gioT{k: "struct", sname: s}
+		}
+	}
+	return gioBad
+}
+
+func gioResolve(p *pkgInfo, e ast.Expr, place string) *gioT {
+	return gioResolveSrc(ggSrc(p.fset, e), place)
+}
+
+func gioLoadStructs(p *pkgInfo) {
+	gioStructTab = map[string]*gioStruct{}
+	decls := map[string]*ast.StructType{}
+	for _, f := range p.files {
+		for _, d := range f.Decls {
+			gd, ok := d.(*ast.GenDecl)
+			if !ok || gd.Tok != token.TYPE {
+				continue
+			}
+			for _, s := range gd.Specs {
+				ts := s.(*ast.TypeSpec)
+				if st, ok := ts.Type.(*ast.StructType); ok {
+					decls[ts.Name.Name] = st
+				}
+			}
+		}
+	}
+	for _, name := range gioStructs {
+		s := &gioStruct{name: name, ok: true}
+		gioStructTab[name] = s
+		st, ok := decls[name]
+		if !ok {
+			problem("internal/io/csv.go translation: struct %s not found", name)
+			s.ok = false
+			continue
+		}
+		for _, fl := range st.Fields.List {
+			if len(fl.Names) == 0 {
+				problem("internal/io/csv.go translation: struct %s has an embedded field", name)
+				s.ok = false
+			}
+			for _, n := range fl.Names {
+				t := gioResolve(p, fl.Type, name+"."+n.Name)
+				if _, zok := t.zero(); t.k == "bad" || !zok {
+					problem("internal/io/csv.go translation: field %s.%s has a type that is not understood: %s", name, n.Name, ggSrc(p.fset, fl.Type))
+					s.ok = false
+					continue
+				}
+				s.fields = append(s.fields, gioField{n.Name, t})
+			}
+		}
+	}
+}
+
+func (s *gioStruct) field(name string) (*gioT, bool) {
+	for _, f := range s.fields {
+		if f.name == name {
+			return f.t, true
+		}
+	}
+	return nil, false
+}
+
+func (s *gioStruct) record() string {
+	var b strings.Builder
+	fmt.Fprintf(&b, "Record gio_%s := gio_mk_%s {\n", s.name, s.name)
+	for i, f := range s.fields {
+		sep := ";"
+		if i == len(s.fields)-1 {
+			sep = " }."
+		}
+		fmt.Fprintf(&b, "  gio_%s_%s : %s%s\n", s.name, f.name, f.t.coq(), sep)
+	}
+	for i, f := range s.fields {
+		var args []string
+		for j, g := range s.fields {
+			if i == j {
+				args = append(args, "v")
+			} else {
+				args = append(args, "(gio_"+s.name+"_"+g.name+" r)")
+			}
+		}
+		fmt.Fprintf(&b, "Definition gio_%s_set_%s (r : gio_%s) (v : %s) : gio_%s :=\n  gio_mk_%s %s.\n", s.name, f.name, s.name, f.t.coq(), s.name, s.name, strings.Join(args, " "))
+	}
+	return b.String()
+}
+
+var _ = strconv.Itoa
+var _ = flag.Lookup
+var _ = os.ReadFile
+var _ = filepath.Join
+
+// ------------------------------------------------------------------ translation context
+
+type gioVar struct {
+	name  string
+	coq   string
+	t     *gioT
+	depth int
+}
+
+type gioFunc struct {
+	goName    string
+	coq       string
+	fd        *ast.FuncDecl
+	params    []gioVar
+	results   []*gioT
+	outs      []gioVar // the slice / map / struct-with-map arguments written through
+	needsFuel bool
+	done      bool
+	ok        bool
+	text      string
+}
+
+var gioFuncs map[string]*gioFunc
+
+type gioCtx struct {
+	vars     []gioVar
+	depth    int
+	brk      func() string
+	cont     func() string
+	retv     func(tuple string) string
+	retPlain bool
+	ranged   map[string]string // ranged variable -> the key identifier its elements may be written at
+}
+
+type gioTr struct {
+	p     *pkgInfo
+	f     *gioFunc
+	loops []string
+	bad   bool
+	ntmp  int
+	nk    int
+	names map[string]int // Coq names handed out (for shadowed variables)
+}
+
+func (t *gioTr) fail(n ast.Node, format string, a ...interface{}) {
+	pos := ""
+	if n != nil {
+		pos = t.p.fset.Position(n.Pos()).String() + ": "
+	}
+	problem("internal/io/csv.go translation, function %s: %s%s", t.f.goName, pos, fmt.Sprintf(format, a...))
+	t.bad = true
+}
+
+func (t *gioTr) src(n ast.Node) string { return ggSrc(t.p.fset, n) }
+
+func (t *gioTr) tmp() string {
+	t.ntmp++
+	return fmt.Sprintf("t%d", t.ntmp)
+}
+
+func (c gioCtx) lookup(name string) (gioVar, bool) {
+	for i := len(c.vars) - 1; i >= 0; i-- {
+		if c.vars[i].name == name {
+			return c.vars[i], true
+		}
+	}
+	return gioVar{}, false
+}
+
+func gioBytesLit(s string) string {
+	if len(s) == 0 {
+		return "(@nil N)"
+	}
+	parts := make([]string, len(s))
+	for i := 0; i < len(s); i++ {
+		parts[i] = strconv.Itoa(int(s[i]))
+	}
+	return "[" + strings.Join(parts, "; ") + "]%N"
+}
+
+func gioIsBytes(t *gioT) bool { return t.k == "str" || t.k == "bytes" }
+
+func gioSame(a, b *gioT) bool {
+	if gioIsBytes(a) && gioIsBytes(b) {
+		return true
+	}
+	if a.k != b.k || a.sname != b.sname {
+		return false
+	}
+	if a.elem != nil || b.elem != nil {
+		return a.elem != nil && b.elem != nil && gioSame(a.elem, b.elem)
+	}
+	return true
+}
+
+// coerce an untyped constant / nil / a concrete column value to the wanted type
+func (t *gioTr) coerce(n ast.Node, text string, ty *gioT, want *gioT) (string, *gioT) {
+	switch ty.k {
+	case "nil":
+		switch want.k {
+		case "err", "data", "list", "map", "cs":
+			z, _ := want.zero()
+			return z, want
+		}
+		t.fail(n, "nil in a context of type %s", want.name())
+		return text, want
+	case "const":
+		switch want.k {
+		case "int", "u32":
+			if !ty.val.IsInt() {
+				t.fail(n, "constant %s is not an integer", ty.val.String())
+				return "0", want
+			}
+			if want.k == "u32" && (ty.val.Sign() < 0 || ty.val.Num().BitLen() > 32) {
+				t.fail(n, "constant %s is not a uint32", ty.val.String())
+			}
+			if ty.val.Sign() < 0 {
+				return "(" + ty.val.Num().String() + ")", want
+			}
+			return ty.val.Num().String(), want
+		case "fa":
+			return "(fa_const " + gioZ(ty.val.Num()) + " " + gioZ(ty.val.Denom()) + ")", gioFA
+		}
+		t.fail(n, "constant %s in a context of type %s", ty.val.String(), want.name())
+		return "0", want
+	case "list":
+		if want.k == "data" {
+			switch ty.elem.k {
+			case "int":
+				return "(gio_d_ints " + text + ")", gioData
+			case "float":
+				return "(gio_d_floats " + text + ")", gioData
+			case "bool":
+				return "(gio_d_bools " + text + ")", gioData
+			}
+		}
+	}
+	return text, ty
+}
+
+func gioZ(v *big.Int) string {
+	if v.Sign() < 0 {
+		return "(" + v.String() + ")"
+	}
+	return v.String()
+}
+
+func gioRoot(e ast.Expr) string {
+	switch x := e.(type) {
+	case *ast.Ident:
+		return x.Name
+	case *ast.SelectorExpr:
+		return gioRoot(x.X)
+	case *ast.IndexExpr:
+		return gioRoot(x.X)
+	case *ast.SliceExpr:
+		return gioRoot(x.X)
+	case *ast.ParenExpr:
+		return gioRoot(x.X)
+	}
+	return ""
+}
+
+// ------------------------------------------------------------------ expressions
+
+func (t *gioTr) expr(e ast.Expr, c gioCtx, pre *[]string) (string, *gioT) {
+	switch x := e.(type) {
+	case *ast.ParenExpr:
+		return t.expr(x.X, c, pre)
+	case *ast.BasicLit:
+		switch x.Kind {
+		case token.INT, token.CHAR, token.FLOAT:
+			if v, ok := evalConst(t.p, x); ok {
+				return "", &gioT{k: "const", val: v}
+			}
+		case token.STRING:
+			if s, err := strconv.Unquote(x.Value); err == nil {
+				return gioBytesLit(s), gioStr
+			}
+		}
+	case *ast.Ident:
+		if v, ok := c.lookup(x.Name); ok {
+			return v.coq, v.t
+		}
+		switch x.Name {
+		case "true", "false":
+			return x.Name, gioBool
+		case "nil":
+			return "", gioNil
+		}
+		if ce, ok := t.p.consts[x.Name]; ok {
+			if v, ok := evalConst(t.p, ce); ok {
+				return "", &gioT{k: "const", val: v}
+			}
+		}
+		t.fail(e, "unknown identifier %s", x.Name)
+		return "0", gioBad
+	case *ast.SelectorExpr:
+		if id, ok := x.X.(*ast.Ident); ok && id.Name == "types" {
+			if _, shadowed := c.lookup("types"); !shadowed {
+				for _, n := range gioTypeConsts {
+					if n == x.Sel.Name {
+						return "gio_c_types_" + n, gioStr
+					}
+				}
+				t.fail(e, "types.%s is not one of the constants understood", x.Sel.Name)
+				return "(@nil N)", gioStr
+			}
+		}
+		a, ta := t.expr(x.X, c, pre)
+		if ta.k == "struct" {
+			s := gioStructTab[ta.sname]
+			if ft, ok := s.field(x.Sel.Name); ok {
+				return "(gio_" + s.name + "_" + x.Sel.Name + " " + a + ")", ft
+			}
+			t.fail(e, "%s has no field %s", s.name, x.Sel.Name)
+			return "0", gioBad
+		}
+	case *ast.IndexExpr:
+		a, ta := t.expr(x.X, c, pre)
+		i, ti := t.expr(x.Index, c, pre)
+		switch ta.k {
+		case "list":
+			i, ti = t.coerce(x.Index, i, ti, gioInt)
+			if ti.k != "int" {
+				t.fail(e, "index of type %s", ti.name())
+				return "0", gioBad
+			}
+			tmp := t.tmp()
+			*pre = append(*pre, "do "+tmp+" <- gio_list_index "+a+" "+i+";\n")
+			return tmp, ta.elem
+		case "map":
+			if !gioIsBytes(ti) {
+				t.fail(e, "map key of type %s", ti.name())
+				return "0", gioBad
+			}
+			z, _ := ta.elem.zero()
+			return "(gio_map_get " + a + " " + i + " " + z + ")", ta.elem
+		}
+		t.fail(e, "indexing a %s", ta.name())
+		return "0", gioBad
+	case *ast.SliceExpr:
+		a, ta := t.expr(x.X, c, pre)
+		if ta.k == "cs" && ta.elem.k == "byte" && x.Low != nil && x.High != nil && !x.Slice3 {
+			lo, tl := t.expr(x.Low, c, pre)
+			lo, tl = t.coerce(x.Low, lo, tl, gioInt)
+			hi, th := t.expr(x.High, c, pre)
+			hi, th = t.coerce(x.High, hi, th, gioInt)
+			if (tl.k == "int" || tl.k == "u32") && (th.k == "int" || th.k == "u32") {
+				tmp := t.tmp()
+				*pre = append(*pre, "do "+tmp+" <- gio_csub "+a+" "+lo+" "+hi+";\n")
+				return tmp, gioBytes
+			}
+		}
+		t.fail(e, "slice expression not understood: %s", t.src(e))
+		return "(@nil N)", gioBytes
+	case *ast.UnaryExpr:
+		if x.Op == token.NOT {
+			a, ta := t.expr(x.X, c, pre)
+			if ta.k == "bool" {
+				return "(negb " + a + ")", gioBool
+			}
+		}
+	case *ast.BinaryExpr:
+		return t.binary(x, c, pre)
+	case *ast.CompositeLit:
+		return t.composite(x, c, pre)
+	case *ast.CallExpr:
+		return t.call(x, c, pre)
+	}
+	t.fail(e, "expression not understood: %s", t.src(e))
+	return "0", gioBad
+}
+
+func (t *gioTr) composite(cl *ast.CompositeLit, c gioCtx, pre *[]string) (string, *gioT) {
+	src := t.src(cl.Type)
+	switch src {
+	case "ncolumn.Column":
+		if len(cl.Elts) == 0 {
+			return "gio_d_ncolumn", gioData
+		}
+	case "strings.StringBlob":
+		vals := map[string]string{}
+		for _, el := range cl.Elts {
+			kv, ok := el.(*ast.KeyValueExpr)
+			if !ok {
+				t.fail(el, "StringBlob literal without field names")
+				continue
+			}
+			a, ta := t.expr(kv.Value, c, pre)
+			switch name := kv.Key.(*ast.Ident).Name; {
+			case name == "Pointers" && gioSame(ta, gioList(gioSptr)), name == "Data" && gioSame(ta, gioCs(gioByte)):
+				vals[name] = a
+			default:
+				t.fail(el, "StringBlob field %s initialised with a %s", name, ta.name())
+			}
+		}
+		if len(vals) == 2 {
+			return "(gio_d_blob " + vals["Pointers"] + " " + vals["Data"] + ")", gioData
+		}
+		t.fail(cl, "a StringBlob literal must give Pointers and Data")
+		return "gio_d_nil", gioData
+	case "[]bytePointer":
+		if len(cl.Elts) == 0 {
+			return "(@nil gio_bytePointer, 0)", gioCs(&gioT{k: "struct", sname: "bytePointer"})
+		}
+	}
+	s := gioStructTab[src]
+	if s == nil {
+		t.fail(cl, "composite literal of a type that is not understood: %s", src)
+		return "0", gioBad
+	}
+	vals := map[string]string{}
+	for _, el := range cl.Elts {
+		kv, ok := el.(*ast.KeyValueExpr)
+		if !ok {
+			t.fail(el, "%s literal without field names", s.name)
+			continue
+		}
+		name := kv.Key.(*ast.Ident).Name
+		ft, ok := s.field(name)
+		if !ok {
+			t.fail(el, "%s has no field %s", s.name, name)
+			continue
+		}
+		a, ta := t.expr(kv.Value, c, pre)
+		a, ta = t.coerce(kv.Value, a, ta, ft)
+		if !gioSame(ta, ft) {
+			t.fail(el, "field %s.%s (a %s) initialised with a %s", s.name, name, ft.name(), ta.name())
+		}
+		vals[name] = a
+	}
+	var args []string
+	for _, f := range s.fields {
+		if v, ok := vals[f.name]; ok {
+			args = append(args, v)
+			continue
+		}
+		z, _ := f.t.zero()
+		args = append(args, z)
+	}
+	return "(gio_mk_" + s.name + " " + strings.Join(args, " ") + ")", &gioT{k: "struct", sname: s.name}
+}
+
+func (t *gioTr) binary(x *ast.BinaryExpr, c gioCtx, pre *[]string) (string, *gioT) {
+	if x.Op == token.LAND || x.Op == token.LOR {
+		a, ta := t.expr(x.X, c, pre)
+		var preB []string
+		b, tb := t.expr(x.Y, c, &preB)
+		if ta.k != "bool" || tb.k != "bool" {
+			t.fail(x, "%s on operands that are not conditions", x.Op)
+			return "false", gioBool
+		}
+		if len(preB) == 0 {
+			if x.Op == token.LAND {
+				return "(" + a + " && " + b + ")", gioBool
+			}
+			return "(" + a + " || " + b + ")", gioBool
+		}
+		tmp := t.tmp()
+		inner := strings.Join(preB, "") + "Ok " + b
+		if x.Op == token.LAND {
+			*pre = append(*pre, "do "+tmp+" <- (if "+a+" then\n"+gsIndent(inner)+"\nelse Ok false);\n")
+		} else {
+			*pre = append(*pre, "do "+tmp+" <- (if "+a+" then Ok true else\n"+gsIndent(inner)+");\n")
+		}
+		return tmp, gioBool
+	}
+	a, ta := t.expr(x.X, c, pre)
+	b, tb := t.expr(x.Y, c, pre)
+	if ta.k == "const" && tb.k == "const" {
+		t.fail(x, "constant expression not understood: %s", t.src(x))
+		return "0", gioBad
+	}
+	if ta.k == "const" || ta.k == "nil" {
+		a, ta = t.coerce(x.X, a, ta, tb)
+	} else if tb.k == "const" || tb.k == "nil" {
+		b, tb = t.coerce(x.Y, b, tb, ta)
+	}
+	switch {
+	case ta.k == "int" && tb.k == "int":
+		switch x.Op {
+		case token.ADD:
+			return "(" + a + " + " + b + ")", gioInt
+		case token.SUB:
+			return "(" + a + " - " + b + ")", gioInt
+		case token.MUL:
+			return "(" + a + " * " + b + ")", gioInt
+		case token.LSS:
+			return "(" + a + " <? " + b + ")", gioBool
+		case token.LEQ:
+			return "(" + a + " <=? " + b + ")", gioBool
+		case token.GTR:
+			return "(" + b + " <? " + a + ")", gioBool
+		case token.GEQ:
+			return "(" + b + " <=? " + a + ")", gioBool
+		case token.EQL:
+			return "(" + a + " =? " + b + ")", gioBool
+		case token.NEQ:
+			return "(negb (" + a + " =? " + b + "))", gioBool
+		}
+	case ta.k == "u32" && tb.k == "u32":
+		switch x.Op {
+		case token.SUB:
+			return "(gio_u32 (" + a + " - " + b + "))", gioU32
+		case token.ADD:
+			return "(gio_u32 (" + a + " + " + b + "))", gioU32
+		case token.EQL:
+			return "(" + a + " =? " + b + ")", gioBool
+		case token.NEQ:
+			return "(negb (" + a + " =? " + b + "))", gioBool
+		}
+	case gioIsBytes(ta) && gioIsBytes(tb):
+		switch x.Op {
+		case token.EQL:
+			return "(bytes_eqb " + a + " " + b + ")", gioBool
+		case token.NEQ:
+			return "(negb (bytes_eqb " + a + " " + b + "))", gioBool
+		case token.ADD:
+			return "(" + a + " ++ " + b + ")", gioStr
+		}
+	case ta.k == "err" && tb.k == "err":
+		switch x.Op {
+		case token.EQL:
+			return "(gio_error_eqb " + a + " " + b + ")", gioBool
+		case token.NEQ:
+			return "(negb (gio_error_eqb " + a + " " + b + "))", gioBool
+		}
+	case ta.k == "fa" && tb.k == "fa":
+		switch x.Op {
+		case token.MUL:
+			return "(fa_mul " + a + " " + b + ")", gioFA
+		case token.QUO:
+			return "(fa_div " + a + " " + b + ")", gioFA
+		}
+	}
+	t.fail(x, "operator %s on %s and %s is not understood", x.Op, ta.name(), tb.name())
+	return "0", gioBad
+}
+
+// ------------------------------------------------------------------ calls
+
+type gioBack struct {
+	lval ast.Expr
+	ty   *gioT
+	tmp  string
+}
+
+type gioCall struct {
+	head    string
+	outcome bool // the head is an outcome (bound with do), otherwise a plain value (bound with let)
+	resT    []*gioT
+	backs   []gioBack // threaded values answered after the results, with the places they go back to
+}
+
+func (t *gioTr) argOf(a ast.Expr, want *gioT, c gioCtx, pre *[]string) string {
+	txt, ty := t.expr(a, c, pre)
+	txt, ty = t.coerce(a, txt, ty, want)
+	if !gioSame(ty, want) {
+		t.fail(a, "argument of type %s where a %s is expected", ty.name(), want.name())
+	}
+	return txt
+}
+
+// callDesc recognises the calls that are not built-ins: the vocabulary and the translated functions.
+func (t *gioTr) callDesc(ce *ast.CallExpr, c gioCtx, pre *[]string) (*gioCall, bool) {
+	nargs := func(n int) bool {
+		if len(ce.Args) != n || ce.Ellipsis.IsValid() {
+			t.fail(ce, "%s takes %d arguments", t.src(ce.Fun), n)
+			return false
+		}
+		return true
+	}
+	switch fn := ce.Fun.(type) {
+	case *ast.SelectorExpr:
+		if id, ok := fn.X.(*ast.Ident); ok {
+			if _, isVar := c.lookup(id.Name); !isVar {
+				switch id.Name + "." + fn.Sel.Name {
+				case "fastcsv.NewReader":
+					if !nargs(2) {
+						return nil, false
+					}
+					return &gioCall{head: "rd_new " + t.argOf(ce.Args[0], gioIO, c, pre) + " " + t.argOf(ce.Args[1], gioByte, c, pre), outcome: true, resT: []*gioT{gioRd}}, true
+				case "ecolumn.NewFactory":
+					if !nargs(2) {
+						return nil, false
+					}
+					return &gioCall{head: "fac_new " + t.argOf(ce.Args[0], gioList(gioStr), c, pre) + " " + t.argOf(ce.Args[1], gioInt, c, pre), resT: []*gioT{gioFac, gioErr}}, true
+				case "strings.ParseInt", "strings.ParseFloat", "strings.ParseBool":
+					if !nargs(1) {
+						return nil, false
+					}
+					r := map[string]*gioT{"ParseInt": gioInt, "ParseFloat": gioFloat, "ParseBool": gioBool}[fn.Sel.Name]
+					return &gioCall{head: "gio_" + fn.Sel.Name + " " + t.argOf(ce.Args[0], gioBytes, c, pre), resT: []*gioT{r, gioErr}}, true
+				case "strings.NewPointer":
+					if !nargs(3) {
+						return nil, false
+					}
+					return &gioCall{head: "gio_NewPointer " + t.argOf(ce.Args[0], gioInt, c, pre) + " " + t.argOf(ce.Args[1], gioInt, c, pre) + " " + t.argOf(ce.Args[2], gioBool, c, pre), resT: []*gioT{gioSptr}}, true
+				case "strings.NewEmptyStringSet":
+					if !nargs(0) {
+						return nil, false
+					}
+					return &gioCall{head: "(@nil (bytes * unit))", resT: []*gioT{gioMap(gioUnit)}}, true
+				case "math.NaN":
+					if !nargs(0) {
+						return nil, false
+					}
+					return &gioCall{head: "gio_NaN", resT: []*gioT{gioFloat}}, true
+				case "fmt.Sprint":
+					if !nargs(1) {
+						return nil, false
+					}
+					return &gioCall{head: "gio_Sprint " + t.argOf(ce.Args[0], gioInt, c, pre), resT: []*gioT{gioStr}}, true
+				case "qerrors.Propagate", "qerrors.New":
+					// the arguments only make the message; they must be panic-free
+					for _, a := range ce.Args {
+						var p2 []string
+						_, ta := t.expr(a, c, &p2)
+						if len(p2) != 0 || ta.k == "bad" {
+							t.fail(a, "an argument of %s that could panic or is not understood", t.src(ce.Fun))
+						}
+					}
+					if ce.Ellipsis.IsValid() {
+						t.fail(ce, "%s with ...", t.src(ce.Fun))
+					}
+					return &gioCall{head: "gio_some", resT: []*gioT{gioErr}}, true
+				}
+				return nil, false
+			}
+		}
+		// a method of the vocabulary on a variable
+		if r := gioRoot(fn.X); r == "" {
+			return nil, false
+		} else if _, known := c.lookup(r); !known {
+			return nil, false
+		}
+		var p2 []string
+		a, ta := t.expr(fn.X, c, &p2)
+		if len(p2) != 0 {
+			return nil, false
+		}
+		switch ta.k + "." + fn.Sel.Name {
+		case "rd.Next":
+			if !nargs(0) {
+				return nil, false
+			}
+			return &gioCall{head: "rd_next " + a, outcome: true, resT: []*gioT{gioBool}, backs: []gioBack{{lval: fn.X, ty: gioRd}}}, true
+		case "rd.Read":
+			if !nargs(0) {
+				return nil, false
+			}
+			return &gioCall{head: "rd_read " + a, outcome: true, resT: []*gioT{gioList(gioBytes), gioErr}, backs: []gioBack{{lval: fn.X, ty: gioRd}}}, true
+		case "rd.Fields":
+			if !nargs(0) {
+				return nil, false
+			}
+			return &gioCall{head: "rd_fields " + a, resT: []*gioT{gioList(gioBytes)}}, true
+		case "rd.Err":
+			if !nargs(0) {
+				return nil, false
+			}
+			return &gioCall{head: "rd_err " + a, resT: []*gioT{gioErr}}, true
+		case "fac.AppendNil":
+			if !nargs(0) {
+				return nil, false
+			}
+			return &gioCall{head: "fac_append_nil " + a, backs: []gioBack{{lval: fn.X, ty: gioFac}}}, true
+		case "fac.AppendByteString":
+			if !nargs(1) {
+				return nil, false
+			}
+			return &gioCall{head: "fac_append_bs " + a + " " + t.argOf(ce.Args[0], gioBytes, c, pre), resT: []*gioT{gioErr}, backs: []gioBack{{lval: fn.X, ty: gioFac}}}, true
+		case "fac.ToColumn":
+			if !nargs(0) {
+				return nil, false
+			}
+			return &gioCall{head: "gio_d_enum (fac_to_column " + a + ")", resT: []*gioT{gioData}}, true
+		case "map.Contains":
+			if ta.elem.k == "unit" && nargs(1) {
+				return &gioCall{head: "gio_map_has " + a + " " + t.argOf(ce.Args[0], gioStr, c, pre), resT: []*gioT{gioBool}}, true
+			}
+		case "map.Add":
+			if ta.elem.k == "unit" && nargs(1) {
+				return &gioCall{head: "gio_map_set " + a + " " + t.argOf(ce.Args[0], gioStr, c, pre) + " tt", backs: []gioBack{{lval: fn.X, ty: ta}}}, true
+			}
+		}
+		return nil, false
+	case *ast.Ident:
+		if _, shadowed := c.lookup(fn.Name); shadowed {
+			return nil, false
+		}
+		g, ok := gioFuncs[fn.Name]
+		if !ok {
+			return nil, false
+		}
+		if g == t.f {
+			t.fail(ce, "recursion")
+		} else if !g.done {
+			t.fail(ce, "%s is called before it is translated (order of gioSpecs)", g.goName)
+		}
+		if g.fd == nil || len(ce.Args) != len(g.params) || ce.Ellipsis.IsValid() {
+			t.fail(ce, "%s: number of arguments / untranslated callee", g.goName)
+			return &gioCall{head: "Panic", outcome: true, resT: g.results}, true
+		}
+		parts := []string{g.coq}
+		if g.needsFuel {
+			parts = append(parts, "fuel'")
+		}
+		d := &gioCall{outcome: true, resT: g.results}
+		for i, a := range ce.Args {
+			parts = append(parts, t.argOf(a, g.params[i].t, c, pre))
+			for _, o := range g.outs {
+				if o.name == g.params[i].name {
+					if gioRoot(a) == "" {
+						t.fail(a, "an argument that %s writes through must be a place", g.goName)
+					}
+					d.backs = append(d.backs, gioBack{lval: a, ty: o.t})
+				}
+			}
+		}
+		d.head = strings.Join(parts, " ")
+		return d, true
+	}
+	return nil, false
+}
+
+// call: a call inside an expression: built-ins, conversions, and calls without threaded values
+func (t *gioTr) call(x *ast.CallExpr, c gioCtx, pre *[]string) (string, *gioT) {
+	if id, ok := x.Fun.(*ast.Ident); ok {
+		if _, shadowed := c.lookup(id.Name); shadowed {
+			t.fail(x, "%s shadows a function", id.Name)
+			return "0", gioBad
+		}
+		switch id.Name {
+		case "len", "cap":
+			if len(x.Args) == 1 {
+				a, ta := t.expr(x.Args[0], c, pre)
+				switch {
+				case ta.k == "cs":
+					return "(gio_c" + id.Name + " " + a + ")", gioInt
+				case id.Name == "len" && (ta.k == "list" || ta.k == "map" || gioIsBytes(ta)):
+					return "(gio_len " + a + ")", gioInt
+				}
+			}
+		case "append":
+			if len(x.Args) == 2 {
+				a, ta := t.expr(x.Args[0], c, pre)
+				b, tb := t.expr(x.Args[1], c, pre)
+				switch {
+				case x.Ellipsis.IsValid() && ta.k == "cs" && ta.elem.k == "byte" && gioIsBytes(tb):
+					return "(gio_cappend " + a + " " + b + ")", ta
+				case x.Ellipsis.IsValid() && ta.k == "cs" && gioSame(ta, tb):
+					return "(gio_cappend " + a + " (fst " + b + "))", ta
+				case !x.Ellipsis.IsValid() && ta.k == "cs" && gioSame(ta.elem, tb):
+					return "(gio_cappend " + a + " [" + b + "])", ta
+				case !x.Ellipsis.IsValid() && ta.k == "list":
+					b, tb = t.coerce(x.Args[1], b, tb, ta.elem)
+					if gioSame(ta.elem, tb) {
+						return "(" + a + " ++ [" + b + "])", ta
+					}
+				}
+			}
+		case "make":
+			ty := gioBad
+			if len(x.Args) >= 1 {
+				ty = gioResolve(t.p, x.Args[0], "")
+			}
+			var nums []string
+			var zeroFirst bool
+			for i, a := range x.Args[1:] {
+				n, tn := t.expr(a, c, pre)
+				if i == 0 && tn.k == "const" && tn.val.Sign() == 0 {
+					zeroFirst = true
+				}
+				n, tn = t.coerce(a, n, tn, gioInt)
+				if tn.k != "int" {
+					t.fail(a, "make with a size of type %s", tn.name())
+				}
+				nums = append(nums, n)
+			}
+			tmp := t.tmp()
+			switch {
+			case ty.k == "map" && len(nums) <= 1:
+				z, _ := ty.zero()
+				return z, ty
+			case ty.k == "list" && len(nums) == 1 && zeroFirst:
+				z, _ := ty.zero()
+				return z, ty
+			case ty.k == "list" && len(nums) == 1:
+				z, _ := ty.elem.zero()
+				*pre = append(*pre, "do "+tmp+" <- gio_make_list "+nums[0]+" "+z+";\n")
+				return tmp, ty
+			case ty.k == "list" && len(nums) == 2 && zeroFirst:
+				*pre = append(*pre, "do "+tmp+" <- @gio_make_empty "+ty.elem.coq()+" "+nums[1]+";\n")
+				return tmp, ty
+			case ty.k == "cs" && len(nums) == 2 && zeroFirst:
+				*pre = append(*pre, "do "+tmp+" <- @gio_cmake0 "+ty.elem.coq()+" "+nums[1]+";\n")
+				return tmp, ty
+			}
+		case "int":
+			if len(x.Args) == 1 {
+				a, ta := t.expr(x.Args[0], c, pre)
+				switch ta.k {
+				case "int", "u32":
+					return a, gioInt
+				case "fa":
+					return "(fa_to_int " + a + ")", gioInt
+				}
+			}
+		case "uint32":
+			if len(x.Args) == 1 {
+				a, ta := t.expr(x.Args[0], c, pre)
+				if ta.k == "int" {
+					return "(gio_u32 " + a + ")", gioU32
+				}
+			}
+		case "string":
+			if len(x.Args) == 1 {
+				a, ta := t.expr(x.Args[0], c, pre)
+				if gioIsBytes(ta) {
+					return a, gioStr
+				}
+			}
+		case "float64":
+			if len(x.Args) == 1 {
+				a, ta := t.expr(x.Args[0], c, pre)
+				if ta.k == "int" {
+					return "(fa_of_int " + a + ")", gioFA
+				}
+			}
+		}
+	}
+	if d, ok := t.callDesc(x, c, pre); ok {
+		if len(d.backs) != 0 {
+			t.fail(x, "a call of %s inside an expression (it changes state: only understood as a statement, a whole right-hand side, a whole condition or the only returned value)", t.src(x.Fun))
+			return "0", gioBad
+		}
+		if len(d.resT) != 1 {
+			t.fail(x, "a call of %s with %d results inside an expression", t.src(x.Fun), len(d.resT))
+			return "0", gioBad
+		}
+		if d.outcome {
+			tmp := t.tmp()
+			*pre = append(*pre, "do "+tmp+" <- "+d.head+";\n")
+			return tmp, d.resT[0]
+		}
+		if strings.Contains(d.head, " ") {
+			return "(" + d.head + ")", d.resT[0]
+		}
+		return d.head, d.resT[0]
+	}
+	t.fail(x, "call not understood: %s", t.src(x))
+	return "0", gioBad
+}
+
+// store: the statement(s) that give the place lhs the value val.
+func (t *gioTr) store(lhs ast.Expr, val string, tv *gioT, c *gioCtx, pre *[]string) string {
+	switch x := lhs.(type) {
+	case *ast.ParenExpr:
+		return t.store(x.X, val, tv, c, pre)
+	case *ast.Ident:
+		if x.Name == "_" {
+			return ""
+		}
+		v, ok := c.lookup(x.Name)
+		if !ok {
+			t.fail(lhs, "unknown variable %s", x.Name)
+			return ""
+		}
+		if !gioSame(tv, v.t) {
+			t.fail(lhs, "assignment to %s: a %s where a %s is expected", x.Name, tv.name(), v.t.name())
+		}
+		if _, isRanged := c.ranged[x.Name]; isRanged {
+			t.fail(lhs, "%s is assigned inside a range loop over it", x.Name)
+		}
+		return "let " + v.coq + " := " + val + " in\n"
+	case *ast.SelectorExpr:
+		a, ta := t.expr(x.X, *c, pre)
+		if ta.k != "struct" {
+			t.fail(lhs, "assignment to a field of a %s", ta.name())
+			return ""
+		}
+		s := gioStructTab[ta.sname]
+		ft, ok := s.field(x.Sel.Name)
+		if !ok {
+			t.fail(lhs, "%s has no field %s", s.name, x.Sel.Name)
+			return ""
+		}
+		if !gioSame(tv, ft) {
+			t.fail(lhs, "assignment to .%s: a %s where a %s is expected", x.Sel.Name, tv.name(), ft.name())
+		}
+		return t.store(x.X, "(gio_"+s.name+"_set_"+x.Sel.Name+" "+a+" "+val+")", ta, c, pre)
+	case *ast.IndexExpr:
+		a, ta := t.expr(x.X, *c, pre)
+		i, ti := t.expr(x.Index, *c, pre)
+		inner := *c
+		if id, ok := x.X.(*ast.Ident); ok {
+			if key, isRanged := c.ranged[id.Name]; isRanged {
+				if kid, ok := x.Index.(*ast.Ident); !ok || kid.Name != key {
+					t.fail(lhs, "inside a range loop over %s only %s[%s] may be written", id.Name, id.Name, key)
+				}
+				// the write itself is allowed
+				inner.ranged = nil
+			}
+		}
+		switch ta.k {
+		case "list":
+			i, ti = t.coerce(x.Index, i, ti, gioInt)
+			if ti.k != "int" || !gioSame(tv, ta.elem) {
+				t.fail(lhs, "index assignment not understood: %s", t.src(lhs))
+				return ""
+			}
+			tmp := t.tmp()
+			return "do " + tmp + " <- gio_list_update " + a + " " + i + " " + val + ";\n" + t.store(x.X, tmp, ta, &inner, pre)
+		case "map":
+			if !gioIsBytes(ti) || !gioSame(tv, ta.elem) {
+				t.fail(lhs, "map assignment not understood: %s", t.src(lhs))
+				return ""
+			}
+			return t.store(x.X, "(gio_map_set "+a+" "+i+" "+val+")", ta, &inner, pre)
+		}
+	}
+	t.fail(lhs, "assignment to %s", t.src(lhs))
+	return ""
+}
+
+// callStmt: a call of the vocabulary / a translated function with the stores of its threaded values.
+func (t *gioTr) callStmt(ce *ast.CallExpr, c *gioCtx) (string, []string, []*gioT, bool) {
+	if id, ok := ce.Fun.(*ast.Ident); ok {
+		switch id.Name {
+		case "len", "cap", "append", "make", "int", "uint32", "string", "float64", "delete":
+			if _, shadowed := c.lookup(id.Name); !shadowed {
+				return "", nil, nil, false
+			}
+		}
+	}
+	var pre []string
+	d, ok := t.callDesc(ce, *c, &pre)
+	if !ok {
+		return "", nil, nil, false
+	}
+	var pat, res []string
+	for range d.resT {
+		tmp := t.tmp()
+		pat = append(pat, tmp)
+		res = append(res, tmp)
+	}
+	for i := range d.backs {
+		d.backs[i].tmp = t.tmp()
+		pat = append(pat, d.backs[i].tmp)
+	}
+	text := strings.Join(pre, "")
+	switch {
+	case d.outcome:
+		text += "do " + gioTupleOrUnit(pat) + " <- " + d.head + ";\n"
+	case len(pat) == 1:
+		text += "let " + pat[0] + " := " + d.head + " in\n"
+	default:
+		text += "let '" + ggTuple(pat) + " := " + d.head + " in\n"
+	}
+	for _, bk := range d.backs {
+		var p2 []string
+		text += t.store(bk.lval, bk.tmp, bk.ty, c, &p2)
+		if len(p2) != 0 {
+			// storing back into x[i]: the index is evaluated again (it was in range when the argument was read)
+			text = strings.TrimSuffix(text, "") // keep
+			t.fail(ce, "storing back the result of the call needs an operation that can panic")
+		}
+	}
+	return text, res, d.resT, true
+}
+
+func gioTupleOrUnit(parts []string) string {
+	if len(parts) == 0 {
+		return "tt"
+	}
+	return ggTuple(parts)
+}
+
+func gioTypeTupleOrUnit(parts []string) string {
+	if len(parts) == 0 {
+		return "unit"
+	}
+	return ggTypeTuple(parts)
+}
+
+// ------------------------------------------------------------------ syntactic analyses
+
+// escapes: the statement contains a return, or a break / continue that leaves the statement itself.
+func gioEscapes(n ast.Node) bool {
+	found := false
+	var walk func(n ast.Node, loopDepth int)
+	walk = func(n ast.Node, loopDepth int) {
+		ast.Inspect(n, func(m ast.Node) bool {
+			switch x := m.(type) {
+			case *ast.ReturnStmt:
+				found = true
+			case *ast.BranchStmt:
+				if loopDepth == 0 {
+					found = true
+				}
+			case *ast.ForStmt:
+				if m != n {
+					walk(x.Body, loopDepth+1)
+					return false
+				}
+			case *ast.RangeStmt:
+				if m != n {
+					walk(x.Body, loopDepth+1)
+					return false
+				}
+			case *ast.FuncLit:
+				return false
+			}
+			return true
+		})
+	}
+	walk(n, 0)
+	return found
+}
+
+func gioHasBreak(body *ast.BlockStmt) bool {
+	found := false
+	ast.Inspect(body, func(m ast.Node) bool {
+		switch x := m.(type) {
+		case *ast.BranchStmt:
+			if x.Tok == token.BREAK {
+				found = true
+			}
+		case *ast.ForStmt, *ast.RangeStmt, *ast.SwitchStmt, *ast.SelectStmt, *ast.FuncLit:
+			return false
+		}
+		return true
+	})
+	return found
+}
+
+// the names the nodes may change (an over-approximation, by name)
+func (t *gioTr) assignedNames(c gioCtx, nodes ...ast.Node) map[string]bool {
+	names := map[string]bool{}
+	mark := func(e ast.Expr) {
+		if r := gioRoot(e); r != "" {
+			names[r] = true
+		}
+	}
+	for _, n := range nodes {
+		if n == nil {
+			continue
+		}
+		ast.Inspect(n, func(m ast.Node) bool {
+			switch x := m.(type) {
+			case *ast.AssignStmt:
+				if x.Tok != token.DEFINE { // inside the node := always declares (a deeper scope)
+					for _, l := range x.Lhs {
+						mark(l)
+					}
+				}
+			case *ast.IncDecStmt:
+				mark(x.X)
+			case *ast.CallExpr:
+				if se, ok := x.Fun.(*ast.SelectorExpr); ok {
+					mark(se.X)
+				}
+				if id, ok := x.Fun.(*ast.Ident); ok {
+					if id.Name == "delete" && len(x.Args) > 0 {
+						mark(x.Args[0])
+					}
+					if g, ok := gioFuncs[id.Name]; ok {
+						for i, a := range x.Args {
+							if i < len(g.params) {
+								for _, o := range g.outs {
+									if o.name == g.params[i].name {
+										mark(a)
+									}
+								}
+							}
+						}
+					}
+				}
+			}
+			return true
+		})
+	}
+	return names
+}
+
+func (t *gioTr) assigned(c gioCtx, nodes ...ast.Node) []gioVar {
+	names := t.assignedNames(c, nodes...)
+	var out []gioVar
+	seen := map[string]bool{}
+	for i := len(c.vars) - 1; i >= 0; i-- { // the innermost variable of each name
+		v := c.vars[i]
+		if names[v.name] && !seen[v.name] {
+			seen[v.name] = true
+			out = append([]gioVar{v}, out...)
+		}
+	}
+	return out
+}
+
+func gioVarNames(vs []gioVar) []string {
+	var out []string
+	for _, v := range vs {
+		out = append(out, v.coq)
+	}
+	return out
+}
+
+func gioVarTypes(vs []gioVar) []string {
+	var out []string
+	for _, v := range vs {
+		out = append(out, v.t.coq())
+	}
+	return out
+}
+
+// ------------------------------------------------------------------ statements
+
+func (t *gioTr) declare(n ast.Node, c *gioCtx, name string, ty *gioT) string {
+	if _, isFn := gioFuncs[name]; isFn {
+		t.fail(n, "%s shadows a function", name)
+	}
+	if ty.k == "const" || ty.k == "nil" || ty.k == "bad" {
+		t.fail(n, "variable %s of a type that is not understood", name)
+		ty = gioInt
+	}
+	if v, dup := c.lookup(name); dup && v.depth == c.depth {
+		t.fail(n, "%s is declared twice in one scope", name)
+	}
+	coq := "v_" + name
+	t.names[coq]++
+	if k := t.names[coq]; k > 1 {
+		coq = fmt.Sprintf("v_%s_%d", name, k)
+	}
+	c.vars = append(append([]gioVar{}, c.vars...), gioVar{name, coq, ty, c.depth})
+	return coq
+}
+
+// simple: a statement without control flow, as a prefix "let .. in\n" / "do .. <- ..;\n"
+func (t *gioTr) simple(st ast.Stmt, c *gioCtx) (string, bool) {
+	var pre []string
+	wrap := func(s string) string { return strings.Join(pre, "") + s }
+	switch x := st.(type) {
+	case *ast.DeclStmt:
+		gd, ok := x.Decl.(*ast.GenDecl)
+		if !ok || gd.Tok != token.VAR {
+			return "", false
+		}
+		text := ""
+		for _, sp := range gd.Specs {
+			vs := sp.(*ast.ValueSpec)
+			if vs.Type == nil || len(vs.Values) != 0 {
+				t.fail(st, "only `var x T` is understood")
+				return "", true
+			}
+			ty := gioResolve(t.p, vs.Type, "")
+			z, ok := ty.zero()
+			if !ok {
+				t.fail(st, "var of a type without zero value in the translation")
+				return "", true
+			}
+			for _, n := range vs.Names {
+				text += "let " + t.declare(st, c, n.Name, ty) + " := " + z + " in\n"
+			}
+		}
+		return text, true
+	case *ast.IncDecStmt:
+		a, ta := t.expr(x.X, *c, &pre)
+		if ta.k != "int" {
+			t.fail(st, "%s on a %s", x.Tok, ta.name())
+			return "", true
+		}
+		op := " + 1"
+		if x.Tok == token.DEC {
+			op = " - 1"
+		}
+		return wrap(t.store(x.X, "("+a+op+")", ta, c, &pre)), true
+	case *ast.ExprStmt:
+		ce, ok := x.X.(*ast.CallExpr)
+		if !ok {
+			return "", false
+		}
+		if id, ok := ce.Fun.(*ast.Ident); ok && id.Name == "delete" && len(ce.Args) == 2 {
+			if _, shadowed := c.lookup("delete"); !shadowed {
+				m, tm := t.expr(ce.Args[0], *c, &pre)
+				k, tk := t.expr(ce.Args[1], *c, &pre)
+				if tm.k != "map" || !gioIsBytes(tk) {
+					t.fail(st, "delete not understood")
+					return "", true
+				}
+				return wrap(t.store(ce.Args[0], "(gio_map_del "+m+" "+k+")", tm, c, &pre)), true
+			}
+		}
+		if text, _, _, ok := t.callStmt(ce, c); ok {
+			return text, true
+		}
+		t.fail(st, "statement not understood: %s", t.src(st))
+		return "", true
+	case *ast.AssignStmt:
+		if x.Tok != token.DEFINE && x.Tok != token.ASSIGN {
+			t.fail(st, "assignment operator %s", x.Tok)
+			return "", true
+		}
+		// the values and their types
+		var vals []string
+		var tys []*gioT
+		text := ""
+		if len(x.Rhs) == 1 && len(x.Lhs) == 2 {
+			if ie, ok := x.Rhs[0].(*ast.IndexExpr); ok { // v, ok := m[k]
+				m, tm := t.expr(ie.X, *c, &pre)
+				k, tk := t.expr(ie.Index, *c, &pre)
+				if tm.k != "map" || !gioIsBytes(tk) {
+					t.fail(st, "v, ok := x[k] on something that is not a map")
+					return "", true
+				}
+				z, _ := tm.elem.zero()
+				vals = []string{"(gio_map_get " + m + " " + k + " " + z + ")", "(gio_map_has " + m + " " + k + ")"}
+				tys = []*gioT{tm.elem, gioBool}
+			}
+		}
+		if vals == nil && len(x.Rhs) == 1 {
+			if ce, ok := x.Rhs[0].(*ast.CallExpr); ok {
+				if ctext, res, resT, ok := t.callStmt(ce, c); ok {
+					text, vals, tys = ctext, res, resT
+				}
+			}
+		}
+		if vals == nil {
+			if len(x.Rhs) != len(x.Lhs) || len(x.Lhs) != 1 {
+				t.fail(st, "assignment with %d left and %d right sides", len(x.Lhs), len(x.Rhs))
+				return "", true
+			}
+			a, ta := t.expr(x.Rhs[0], *c, &pre)
+			vals, tys = []string{a}, []*gioT{ta}
+		}
+		if len(vals) != len(x.Lhs) {
+			t.fail(st, "%d values assigned to %d places", len(vals), len(x.Lhs))
+			return "", true
+		}
+		text = strings.Join(pre, "") + text
+		pre = nil
+		for i, l := range x.Lhs {
+			val, ty := vals[i], tys[i]
+			isNew := false
+			if x.Tok == token.DEFINE {
+				id, ok := l.(*ast.Ident)
+				if !ok {
+					t.fail(st, ":= on something that is not a variable")
+					return "", true
+				}
+				if id.Name == "_" {
+					continue
+				}
+				v, exists := c.lookup(id.Name)
+				isNew = !exists || v.depth != c.depth
+				if isNew {
+					if ty.k == "const" {
+						val, ty = t.coerce(x.Rhs[0], val, ty, gioInt)
+					}
+					text += "let " + t.declare(st, c, id.Name, ty) + " := " + val + " in\n"
+					continue
+				}
+			}
+			if ty.k == "const" || ty.k == "nil" {
+				var p2 []string
+				_, tl := t.expr(l, *c, &p2)
+				val, ty = t.coerce(x.Rhs[0], val, ty, tl)
+			}
+			var p2 []string
+			s := t.store(l, val, ty, c, &p2)
+			text += strings.Join(p2, "") + s
+		}
+		return text, true
+	}
+	return "", false
+}
+
+func gioRestrict(inner, outer gioCtx) gioCtx {
+	r := outer
+	r.vars = inner.vars[:len(outer.vars)]
+	return r
+}
+
+func (t *gioTr) cond(e ast.Expr, c *gioCtx) (string, string) {
+	if ce, ok := e.(*ast.CallExpr); ok {
+		if text, res, resT, ok := t.callStmt(ce, c); ok {
+			if len(res) != 1 || resT[0].k != "bool" {
+				t.fail(e, "a call used as a condition must answer one bool")
+				return text, "false"
+			}
+			return text, res[0]
+		}
+	}
+	var pre []string
+	ct, tc := t.expr(e, *c, &pre)
+	if tc.k != "bool" {
+		t.fail(e, "a condition is expected")
+		return "", "false"
+	}
+	return strings.Join(pre, ""), ct
+}
+
+func (c gioCtx) enter() gioCtx {
+	c.depth++
+	return c
+}
+
+func (t *gioTr) stmts(list []ast.Stmt, c gioCtx, k func(gioCtx) string) string {
+	if len(list) == 0 {
+		return k(c)
+	}
+	st, rest := list[0], list[1:]
+	memo, have := "", false
+	next := func(c2 gioCtx) string {
+		if !have {
+			memo, have = t.stmts(rest, c2, k), true
+		}
+		return memo
+	}
+	switch x := st.(type) {
+	case *ast.ReturnStmt:
+		return t.ret(x, c)
+	case *ast.BranchStmt:
+		if x.Label != nil {
+			t.fail(st, "labels are not understood")
+			return "Panic"
+		}
+		switch x.Tok {
+		case token.BREAK:
+			if c.brk == nil {
+				t.fail(st, "break is not understood here")
+				return "Panic"
+			}
+			return c.brk()
+		case token.CONTINUE:
+			if c.cont == nil {
+				t.fail(st, "continue outside a loop")
+				return "Panic"
+			}
+			return c.cont()
+		}
+		t.fail(st, "%s is not understood", x.Tok)
+		return "Panic"
+	case *ast.BlockStmt:
+		return t.stmts(x.List, c.enter(), func(c2 gioCtx) string { return next(gioRestrict(c2, c)) })
+	case *ast.IfStmt:
+		return t.ifStmt(x, c, next)
+	case *ast.ForStmt:
+		return t.forStmt(x, c, next)
+	case *ast.RangeStmt:
+		return t.rangeStmt(x, c, next)
+	}
+	if text, ok := t.simple(st, &c); ok {
+		return text + next(c)
+	}
+	t.fail(st, "statement not understood: %s", t.src(st))
+	return "Panic"
+}
+
+func (t *gioTr) ifStmt(x *ast.IfStmt, c gioCtx, next func(gioCtx) string) string {
+	c1 := c.enter()
+	initText := ""
+	if x.Init != nil {
+		txt, ok := t.simple(x.Init, &c1)
+		if !ok {
+			t.fail(x.Init, "if init statement not understood")
+		}
+		initText = txt
+	}
+	pre, ct := t.cond(x.Cond, &c1)
+	head := initText + pre + "if " + ct + " then\n"
+	elseList := ggElse(x)
+	c2 := c1.enter()
+	back := func(c3 gioCtx) gioCtx { return gioRestrict(c3, c) }
+	if !gioEscapes(x) {
+		vs := t.assigned(c, x)
+		if len(vs) == 0 {
+			t.fail(x, "an if that changes nothing")
+			return "Panic"
+		}
+		okPat := "Ok " + ggTuple(gioVarNames(vs))
+		thenT := t.stmts(x.Body.List, c2, func(gioCtx) string { return okPat })
+		elseT := t.stmts(elseList, c2, func(gioCtx) string { return okPat })
+		inner := head + gsIndent(thenT) + "\nelse\n" + gsIndent(elseT)
+		return "do " + ggTuple(gioVarNames(vs)) + " <- (\n" + gsIndent(inner) + ");\n" + next(c)
+	}
+	// the rest of the block is reached from the branches that fall through: once = in place, more often = through
+	// a local continuation taking the outer variables the if may have changed
+	_ = back
+	t.nk++
+	ph := fmt.Sprintf("@K%d@", t.nk)
+	kname := fmt.Sprintf("k%d", t.nk)
+	thenT := t.stmts(x.Body.List, c2, func(gioCtx) string { return ph })
+	elseT := t.stmts(elseList, c2, func(gioCtx) string { return ph })
+	nextT := next(c)
+	if strings.Count(thenT, ph)+strings.Count(elseT, ph) <= 1 {
+		thenT = strings.ReplaceAll(thenT, ph, nextT)
+		elseT = strings.ReplaceAll(elseT, ph, nextT)
+		return head + gsIndent(thenT) + "\nelse\n" + gsIndent(elseT)
+	}
+	vs := t.assigned(c, x)
+	var lam, call string
+	switch len(vs) {
+	case 0:
+		lam, call = "fun (_ : unit) =>\n", kname+" tt"
+	case 1:
+		lam, call = "fun ("+vs[0].coq+" : "+vs[0].t.coq()+") =>\n", kname+" "+vs[0].coq
+	default:
+		lam = "fun (p : " + ggTypeTuple(gioVarTypes(vs)) + ") => let '" + ggTuple(gioVarNames(vs)) + " := p in\n"
+		call = kname + " " + ggTuple(gioVarNames(vs))
+	}
+	thenT = strings.ReplaceAll(thenT, ph, call)
+	elseT = strings.ReplaceAll(elseT, ph, call)
+	return "let " + kname + " := (" + lam + gsIndent(nextT) + ") in\n" + head + gsIndent(thenT) + "\nelse\n" + gsIndent(elseT)
+}
+
+func (t *gioTr) outsTuple(res []string, c gioCtx) string {
+	parts := append([]string{}, res...)
+	for _, o := range t.f.outs {
+		parts = append(parts, o.coq)
+	}
+	return gioTupleOrUnit(parts)
+}
+
+func (t *gioTr) ret(x *ast.ReturnStmt, c gioCtx) string {
+	if len(x.Results) == 1 && len(t.f.results) > 1 {
+		if ce, ok := x.Results[0].(*ast.CallExpr); ok {
+			if text, res, resT, ok := t.callStmt(ce, &c); ok {
+				if len(res) != len(t.f.results) {
+					t.fail(x, "return of a call with %d values, the function has %d results", len(res), len(t.f.results))
+					return "Panic"
+				}
+				for i := range res {
+					if !gioSame(resT[i], t.f.results[i]) {
+						t.fail(x, "result %d: a %s where a %s is expected", i, resT[i].name(), t.f.results[i].name())
+					}
+				}
+				return text + c.retv(t.outsTuple(res, c))
+			}
+		}
+	}
+	var pre []string
+	var res []string
+	if len(x.Results) != len(t.f.results) {
+		t.fail(x, "return with %d values, the function has %d results", len(x.Results), len(t.f.results))
+		return "Panic"
+	}
+	for i, r := range x.Results {
+		a, ta := t.expr(r, c, &pre)
+		a, ta = t.coerce(r, a, ta, t.f.results[i])
+		if !gioSame(ta, t.f.results[i]) {
+			t.fail(r, "result %d: a %s where a %s is expected", i, ta.name(), t.f.results[i].name())
+		}
+		res = append(res, a)
+	}
+	return strings.Join(pre, "") + c.retv(t.outsTuple(res, c))
+}
+
+func (t *gioTr) resultType() string {
+	var tys []string
+	for _, r := range t.f.results {
+		tys = append(tys, r.coq())
+	}
+	for _, o := range t.f.outs {
+		tys = append(tys, o.t.coq())
+	}
+	return gioTypeTupleOrUnit(tys)
+}
+
+// loopDef emits the Fixpoint of a loop and answers its call; body contains @REC@ where the loop continues.
+// over != "": a range loop, structural over the list (text over) with the index counter.
+func (t *gioTr) loopDef(c gioCtx, res []gioVar, body string, resType string, over, overType, exit, bind string) string {
+	var ps []gioVar
+	for _, v := range c.vars {
+		if gsMentions(body, v.coq) || gsMentions(exit, v.coq) {
+			ps = append(ps, v)
+		}
+	}
+	for _, r := range res {
+		found := false
+		for _, v := range ps {
+			if v.coq == r.coq {
+				found = true
+			}
+		}
+		if !found {
+			ps = append(ps, r)
+		}
+	}
+	name := fmt.Sprintf("%s_loop%d", t.f.coq, len(t.loops)+1)
+	var sig, recArgs, callArgs []string
+	if gsMentions(body, "fuel'") {
+		sig = append(sig, "(fuel' : nat)")
+		recArgs = append(recArgs, "fuel'")
+		callArgs = append(callArgs, "fuel'")
+	}
+	if over == "" {
+		sig = append(sig, "(k : nat)")
+		recArgs = append(recArgs, "k'")
+		callArgs = append(callArgs, "fuel'")
+	} else {
+		sig = append(sig, "(l : list "+overType+")", "(i : Z)")
+		recArgs = append(recArgs, "l'", "(i + 1)")
+		callArgs = append(callArgs, over, "0")
+	}
+	for _, v := range ps {
+		sig = append(sig, "("+v.coq+" : "+v.t.coq()+")")
+		recArgs = append(recArgs, v.coq)
+		callArgs = append(callArgs, v.coq)
+	}
+	body = strings.ReplaceAll(body, "@REC@", name+" "+strings.Join(recArgs, " "))
+	var def string
+	if over == "" {
+		def = "Fixpoint " + name + " " + strings.Join(sig, " ") + " {struct k} : outcome " + resType + " :=\n" +
+			"  match k with\n  | O => Panic\n  | S k' =>\n" + gsIndent(gsIndent(body)) + "\n  end.\n"
+	} else {
+		def = "Fixpoint " + name + " " + strings.Join(sig, " ") + " {struct l} : outcome " + resType + " :=\n" +
+			"  match l with\n  | [] => " + exit + "\n  | x :: l' =>\n" + gsIndent(gsIndent(bind+body)) + "\n  end.\n"
+	}
+	t.loops = append(t.loops, def)
+	return name + " " + strings.Join(callArgs, " ")
+}
+
+func (t *gioTr) forStmt(x *ast.ForStmt, c gioCtx, next func(gioCtx) string) string {
+	if x.Init != nil || x.Post != nil {
+		t.fail(x, "a for loop with init / post statement")
+		return "Panic"
+	}
+	hasRet := gsContainsReturn(x.Body)
+	canExit := x.Cond != nil || gioHasBreak(x.Body)
+	var nodes []ast.Node
+	nodes = append(nodes, x.Body)
+	if x.Cond != nil {
+		nodes = append(nodes, x.Cond)
+	}
+	res := t.assigned(c, nodes...)
+	vtuple := gioTupleOrUnit(gioVarNames(res))
+	vtype := gioTypeTupleOrUnit(gioVarTypes(res))
+	cb := c.enter()
+	cb.cont = func() string { return "@REC@" }
+	var exit, resType string
+	switch {
+	case !hasRet:
+		if len(res) == 0 {
+			t.fail(x, "a loop that changes nothing")
+			return "Panic"
+		}
+		if !canExit {
+			t.fail(x, "a loop that can neither end nor return")
+			return "Panic"
+		}
+		exit, resType = "Ok "+vtuple, vtype
+	case !canExit:
+		cb.retv = func(tp string) string { return "Ok " + tp }
+		cb.retPlain = true
+		resType = t.resultType()
+	default:
+		cb.retv = func(tp string) string { return "Ok (inl " + tp + ")" }
+		cb.retPlain = false
+		exit = "Ok (inr " + vtuple + ")"
+		resType = "(" + t.resultType() + " + " + vtype + ")"
+	}
+	if canExit {
+		cb.brk = func() string { return exit }
+	} else {
+		cb.brk = nil
+	}
+	body := ""
+	if x.Cond != nil {
+		cc := cb
+		pre, ct := t.cond(x.Cond, &cc)
+		iter := t.stmts(x.Body.List, cc.enter(), func(gioCtx) string { return "@REC@" })
+		body = pre + "if " + ct + " then\n" + gsIndent(iter) + "\nelse\n" + gsIndent(exit)
+	} else {
+		body = t.stmts(x.Body.List, cb.enter(), func(gioCtx) string { return "@REC@" })
+	}
+	call := t.loopDef(c, res, body, resType, "", "", "", "")
+	return t.afterLoop(c, call, hasRet, canExit, vtuple, next)
+}
+
+func (t *gioTr) afterLoop(c gioCtx, call string, hasRet, canExit bool, vtuple string, next func(gioCtx) string) string {
+	switch {
+	case !hasRet:
+		return "do " + vtuple + " <- " + call + ";\n" + next(c)
+	case !canExit:
+		if c.retPlain {
+			return call
+		}
+		tmp := t.tmp()
+		return "do " + tmp + " <- " + call + ";\n" + c.retv(tmp)
+	}
+	tmp, r := t.tmp(), t.tmp()
+	return "do " + tmp + " <- " + call + ";\nmatch " + tmp + " with\n| inl " + r + " => " + c.retv(r) + "\n| inr " + vtuple + " =>\n" + gsIndent(next(c)) + "\nend"
+}
+
+func (t *gioTr) rangeStmt(x *ast.RangeStmt, c gioCtx, next func(gioCtx) string) string {
+	if x.Tok != token.DEFINE {
+		t.fail(x, "a range loop that does not declare its variables")
+		return "Panic"
+	}
+	var pre []string
+	over, to := t.expr(x.X, c, &pre)
+	var elem *gioT
+	switch to.k {
+	case "list":
+		elem = to.elem
+	case "cs":
+		elem = to.elem
+		over = "(fst " + over + ")"
+	default:
+		t.fail(x, "range over a %s", to.name())
+		return "Panic"
+	}
+	keyName, valName := "", ""
+	if id, ok := x.Key.(*ast.Ident); ok && id.Name != "_" {
+		keyName = id.Name
+	} else if x.Key != nil && !ok {
+		t.fail(x, "range key not understood")
+	}
+	if x.Value != nil {
+		if id, ok := x.Value.(*ast.Ident); ok {
+			if id.Name != "_" {
+				valName = id.Name
+			}
+		} else {
+			t.fail(x, "range value not understood")
+		}
+	}
+	hasRet := gsContainsReturn(x.Body)
+	names := t.assignedNames(c, x.Body)
+	if keyName != "" && names[keyName] || valName != "" && names[valName] {
+		t.fail(x, "a range variable is assigned inside the loop")
+	}
+	res := t.assigned(c, x.Body)
+	// the range variables are not outer variables even if they share a name with one
+	vtuple := gioTupleOrUnit(gioVarNames(res))
+	vtype := gioTypeTupleOrUnit(gioVarTypes(res))
+	cb := c.enter()
+	cb.cont = func() string { return "@REC@" }
+	if id, ok := x.X.(*ast.Ident); ok {
+		rg := map[string]string{}
+		for k, v := range c.ranged {
+			rg[k] = v
+		}
+		rg[id.Name] = keyName
+		cb.ranged = rg
+	}
+	bind := ""
+	if keyName != "" {
+		bind += "let " + t.declare(x, &cb, keyName, gioInt) + " := i in\n"
+	}
+	if valName != "" {
+		bind += "let " + t.declare(x, &cb, valName, elem) + " := x in\n"
+	}
+	var exit, resType string
+	if !hasRet {
+		if len(res) == 0 {
+			t.fail(x, "a loop that changes nothing")
+			return "Panic"
+		}
+		exit, resType = "Ok "+vtuple, vtype
+	} else {
+		cb.retv = func(tp string) string { return "Ok (inl " + tp + ")" }
+		cb.retPlain = false
+		exit = "Ok (inr " + vtuple + ")"
+		resType = "(" + t.resultType() + " + " + vtype + ")"
+	}
+	cb.brk = func() string { return exit }
+	body := t.stmts(x.Body.List, cb.enter(), func(gioCtx) string { return "@REC@" })
+	call := t.loopDef(c, res, body, resType, over, elem.coq(), exit, bind)
+	return strings.Join(pre, "") + t.afterLoop(c, call, hasRet, true, vtuple, next)
+}
+
+// ------------------------------------------------------------------ functions
+
+// the arguments the body writes through: x[..] = v, delete(x.., k), x.Add(..), or handing x to a callee that does
+func gioWrittenThrough(fd *ast.FuncDecl) map[string]bool {
+	names := map[string]bool{}
+	ast.Inspect(fd.Body, func(m ast.Node) bool {
+		switch x := m.(type) {
+		case *ast.AssignStmt:
+			if x.Tok == token.ASSIGN {
+				for _, l := range x.Lhs {
+					if _, plain := l.(*ast.Ident); !plain {
+						if r := gioRoot(l); r != "" {
+							names[r] = true
+						}
+					}
+				}
+			}
+		case *ast.CallExpr:
+			if id, ok := x.Fun.(*ast.Ident); ok {
+				if id.Name == "delete" && len(x.Args) > 0 {
+					if r := gioRoot(x.Args[0]); r != "" {
+						names[r] = true
+					}
+				}
+				if g, ok := gioFuncs[id.Name]; ok {
+					for i, a := range x.Args {
+						if i < len(g.params) {
+							for _, o := range g.outs {
+								if o.name == g.params[i].name {
+									if r := gioRoot(a); r != "" {
+										names[r] = true
+									}
+								}
+							}
+						}
+					}
+				}
+			}
+		}
+		return true
+	})
+	return names
+}
+
+func gioSignature(p *pkgInfo, f *gioFunc) bool {
+	fd := f.fd
+	bad := func(format string, a ...interface{}) bool {
+		problem("internal/io/csv.go translation, function %s: %s", f.goName, fmt.Sprintf(format, a...))
+		return false
+	}
+	if fd.Recv != nil {
+		return bad("a method")
+	}
+	written := gioWrittenThrough(fd)
+	for _, fl := range fd.Type.Params.List {
+		if len(fl.Names) == 0 {
+			return bad("an argument without name")
+		}
+		for _, n := range fl.Names {
+			ty := gioResolve(p, fl.Type, f.goName+"."+n.Name)
+			if ty.k == "bad" {
+				return bad("argument %s has a type that is not understood", n.Name)
+			}
+			v := gioVar{n.Name, "v_" + n.Name, ty, 0}
+			f.params = append(f.params, v)
+			if written[n.Name] {
+				switch ty.k {
+				case "list", "map", "struct":
+					f.outs = append(f.outs, v)
+				default:
+					return bad("argument %s (a %s) is written through", n.Name, ty.name())
+				}
+			}
+		}
+	}
+	if fd.Type.Results != nil {
+		i := 0
+		for _, fl := range fd.Type.Results.List {
+			if len(fl.Names) > 0 {
+				return bad("named results")
+			}
+			ty := gioResolve(p, fl.Type, fmt.Sprintf("%s.result%d", f.goName, i))
+			if ty.k == "bad" {
+				return bad("result type not understood")
+			}
+			f.results = append(f.results, ty)
+			i++
+		}
+	}
+	return true
+}
+
+func gioNeedsFuel(f *gioFunc) bool {
+	need := false
+	ast.Inspect(f.fd.Body, func(n ast.Node) bool {
+		switch x := n.(type) {
+		case *ast.ForStmt:
+			need = true
+		case *ast.CallExpr:
+			if id, ok := x.Fun.(*ast.Ident); ok {
+				if g, ok := gioFuncs[id.Name]; ok && g.done && g.needsFuel {
+					need = true
+				}
+			}
+		}
+		return true
+	})
+	return need
+}
+
+func gioTranslate(p *pkgInfo, f *gioFunc) {
+	t := &gioTr{p: p, f: f, names: map[string]int{}}
+	c := gioCtx{retv: func(tp string) string { return "Ok " + tp }, retPlain: true}
+	c.vars = append(c.vars, f.params...)
+	for _, v := range c.vars {
+		t.names[v.coq] = 1
+		if _, isFn := gioFuncs[v.name]; isFn {
+			t.fail(f.fd, "argument %s shadows a function", v.name)
+		}
+	}
+	// a threaded argument must keep its Coq name: it may not be shadowed
+	ast.Inspect(f.fd.Body, func(n ast.Node) bool {
+		if fl, ok := n.(*ast.FuncLit); ok {
+			t.fail(fl, "a closure")
+			return false
+		}
+		return true
+	})
+	body := t.stmts(f.fd.Body.List, c.enter(), func(c2 gioCtx) string {
+		if len(f.results) != 0 {
+			t.fail(f.fd, "the function can fall off its end")
+		}
+		return "Ok " + t.outsTuple(nil, c2)
+	})
+	for _, o := range f.outs {
+		if t.names[o.coq] > 1 {
+			t.fail(f.fd, "the threaded argument %s is shadowed", o.name)
+		}
+	}
+	var sig []string
+	if f.needsFuel {
+		sig = append(sig, "(fuel : nat)")
+	}
+	for _, v := range c.vars {
+		sig = append(sig, "("+v.coq+" : "+v.t.coq()+")")
+	}
+	var b strings.Builder
+	fmt.Fprintf(&b, "(* %s\n%s *)\n", gioPkg, gsSource(p, f.fd))
+	for _, l := range t.loops {
+		b.WriteString(l)
+	}
+	if f.needsFuel {
+		fmt.Fprintf(&b, "Definition %s %s : outcome %s :=\n  match fuel with\n  | O => Panic\n  | S fuel' =>\n%s\n  end.\n",
+			f.coq, strings.Join(sig, " "), t.resultType(), gsIndent(gsIndent(body)))
+	} else {
+		if gsMentions(body, "fuel'") {
+			t.fail(f.fd, "a function without fuel uses fuel")
+		}
+		fmt.Fprintf(&b, "Definition %s %s : outcome %s :=\n%s.\n", f.coq, strings.Join(sig, " "), t.resultType(), gsIndent(body))
+	}
+	f.text = b.String()
+	f.ok = !t.bad
+}
+
+// the string constants of /repo/types
+func gioConstBlock() (string, bool) {
+	tp := loadPkg("types")
+	var b strings.Builder
+	ok := true
+	for _, n := range gioTypeConsts {
+		e, found := tp.consts[n]
+		if !found {
+			problem("internal/io/csv.go translation: constant types.%s not found", n)
+			ok = false
+			continue
+		}
+		bl, isLit := e.(*ast.BasicLit)
+		if !isLit || bl.Kind != token.STRING {
+			problem("internal/io/csv.go translation: constant types.%s is not a string literal", n)
+			ok = false
+			continue
+		}
+		s, err := strconv.Unquote(bl.Value)
+		if err != nil {
+			ok = false
+			continue
+		}
+		fmt.Fprintf(&b, "Definition gio_c_types_%s : bytes := %s.  (* %q *)\n", n, gioBytesLit(s), s)
+	}
+	return b.String(), ok
+}
+
+func genIoCsv() string {
+	p := loadPkg(gioPkg)
+	gioLoadStructs(p)
+	gioFuncs = map[string]*gioFunc{}
+	var order []*gioFunc
+	for _, n := range gioSpecs {
+		f := &gioFunc{goName: n, coq: "gio_" + n}
+		gioFuncs[n] = f
+		order = append(order, f)
+	}
+	structsOK := true
+	for _, s := range gioStructs {
+		if !gioStructTab[s].ok {
+			structsOK = false
+		}
+	}
+	for _, f := range order {
+		fd, ok := p.funcs[f.goName]
+		if !ok || fd.Body == nil {
+			problem("internal/io/csv.go translation: function %s not found in %s", f.goName, gioPkg)
+			f.done = true
+			continue
+		}
+		f.fd = fd
+		if !structsOK || !gioSignature(p, f) {
+			f.fd = nil
+			f.done = true
+			continue
+		}
+		f.needsFuel = gioNeedsFuel(f)
+		gioTranslate(p, f)
+		f.done = true
+	}
+	golden := ""
+	if fl := flag.Lookup("golden"); fl != nil && fl.Value.String() != "" {
+		if gb, err := os.ReadFile(filepath.Join(fl.Value.String(), "GenIoCsv.v")); err == nil {
+			golden = string(gb)
+		}
+	}
+	block := func(b *strings.Builder, name, text string, ok bool) {
+		if !ok {
+			old, found := gfGoldenBlock(golden, name)
+			if !found {
+				return
+			}
+			text = "(* FALLBACK " + name + ": not derivable from the current source; text of the last validated tree *)\n" + old
+		}
+		fmt.Fprintf(b, "(* BEGIN %s *)\n%s(* END %s *)\n\n", name, text, name)
+	}
+	var b strings.Builder
+	b.WriteString(gioPreamble)
+	ct, cok := gioConstBlock()
+	block(&b, "gio_c_types", ct, cok)
+	for _, sn := range gioStructs {
+		s := gioStructTab[sn]
+		text := ""
+		if s.ok {
+			text = "(* " + gioPkg + "\n" + ggStructSource(p, sn) + " *)\n" + s.record()
+		}
+		block(&b, "gio_"+sn, text, s.ok)
+	}
+	b.WriteString(gioSection)
+	for _, f := range order {
+		block(&b, f.coq, f.text, f.ok)
+	}
+	b.WriteString("End GenIoCsv.\n")
+	return b.String()
+}
